@@ -18,7 +18,9 @@ from cobald.decorator.buffer import Buffer
 from cobald.composite.factory import FactoryPool
 
 KINDS = ["linear", "relsupply", "stepwise", "switch", "buffer", "factory"]
-INTERVALS = [0.25, 0.5, 1.0, 2.0, 8.0, 30.0]
+# mostly dyadic (exact float arithmetic on the clock), some not: a run loop that does arithmetic
+# on clock readings must not depend on interval multiples being representable
+INTERVALS = [0.25, 0.5, 1.0, 2.0, 8.0, 30.0, 0.25, 0.5, 1.0, 2.0, 8.0, 30.0, 0.1, 0.3, 0.7, 1.1]
 FRACTIONS = [0.0, 0.125, 0.25, 0.375, 0.5, 0.625, 0.75, 0.875, 1.0]
 
 
@@ -330,6 +332,7 @@ def run(scenario, tape_values):
         await env(world, nursery)
 
     world.run(main)
+    _canonical_times(world.events, start, interval)
     _oracle(world, sc, kind, interval, periods, start, params, horizon)
     shape = _shape(world, sc, kind, interval, start)
     return finish(world, shape, near_boundary[0] > 0 and periods >= 3)
@@ -350,6 +353,21 @@ def _factory_observable(ev, params, t):
         elif e["kind"] == "env-write":
             return nchildren > 0  # same-instant write: either order is legitimate
     return nchildren > 0 or demand > 0
+
+
+def _canonical_times(events, start, interval):
+    """A loop of sleep(interval) reaches start + interval + interval + ..., which for an interval
+    that is not a binary fraction differs from start + k * interval in the last bits.  Event times
+    within 1e-9 intervals of a boundary are relabelled with the boundary's canonical value so that
+    the oracle can keep comparing instants exactly; the order of events is left as observed."""
+    for e in events:
+        t = e.get("t")
+        if t is None:
+            continue
+        k = round((t - start) / interval)
+        b = start + k * interval
+        if t != b and abs(t - b) <= 1e-9 * interval:
+            e["t"] = b
 
 
 def _shape(world, sc, kind, interval, start):
@@ -480,7 +498,7 @@ def _oracle(world, sc, kind, interval, periods, start, params, horizon):
         for i in range(len(pts)):
             for j in range(i + 1, len(pts)):
                 span = pts[j][0] - pts[i][0]
-                if abs(pts[j][1] - pts[i][1]) > rate * (span + interval):
+                if abs(pts[j][1] - pts[i][1]) > rate * (span + interval) * (1 + 1e-9):
                     V("C09/linear-rate-bound", "demand moved %r -> %r within span %r; bound rate*(span+interval)=%r" % (pts[i][1], pts[j][1], span, rate * (span + interval)))
                     return
             if len(pts) > 400:
